@@ -661,6 +661,7 @@ class Models(Structural):
         c.assumed.append('numpy.where')
         r = CArr.from_fn(lambda j: N(w(T.to_int_term(j))), (m,), 'int', meta={'where': (cond, pos, w, m)})
         c.cache[key] = r
+        c.cache.setdefault('where-calls', []).append(dict(w=w, pos=pos, m=m, n=n))
         return (r,)
 
     @reg('numpy.nonzero')
